@@ -931,6 +931,7 @@ func (r *resolution) resolve(ctx context.Context, reqs []resolve.RequirementVers
 		}
 		// If there's nothing unsatisfied we're done.
 		if len(unsatisfiedCriterionNames) == 0 {
+			verifRound(r, resolve.PackageKey{}, "done")
 			return state, nil
 		}
 
@@ -969,12 +970,15 @@ func (r *resolution) resolve(ctx context.Context, reqs []resolve.RequirementVers
 				// because it is only why the most recent attempt
 				// to pin failed. However, it is what python
 				// uses, so that is good enough.
+				verifRound(r, minName, "impossible")
 				return nil, resolutionImpossible(failureCauses...)
 			}
+			verifRound(r, minName, "backtrack")
 		} else {
 			// The pin worked, keep rolling through. Backtracking
 			// manipulates the state stack so we only need to push a new one
 			// if we did not need to backtrack.
+			verifRound(r, minName, "pin")
 			r.pushNewState()
 		}
 	}
